@@ -104,6 +104,7 @@ def cases(tier, seed):
         ("H22", "full", 2 if q else 3),
         ("H22", "mixed", 3 if q else 4),
         ("H22", "twin", 3 if q else 4),
+        ("SQ3", "core8", 2 if q else 3),
         ("H111shared", "pairs", 3 if q else 5),
         ("N111shared", "pairs", 3 if q else 4),
         ("H121", "core12", 4 if q else 6),
